@@ -1,7 +1,10 @@
-"""harness/seed_sweep.py [ids...] — re-runs the registered quick check of each seeded change's property with the change
-applied to /repo (git apply; undone straight afterwards) and records the result in seeded/<id>/meta.json
-(`confirmation.check_rc/check_tail` = latest run; earlier differing results are kept in `history`).
-Mutates /repo while it runs: run nothing else at the same time."""
+"""harness/seed_sweep.py [--in-repo] [ids...] — re-runs the registered quick check of each seeded change's property with the
+change applied and records the result in seeded/<id>/meta.json (`confirmation.check_rc/check_tail` = latest run; earlier
+differing results are kept in `history`).
+
+By default the change is applied to a scratch worktree of /repo (outside /repo and /verif, removed at the end) and the
+check is pointed at it with VERIF_REPO, so that /repo itself is never modified while other work reads it.  With --in-repo
+the change is applied to /repo (git apply) and undone straight afterwards (git checkout -- .): run nothing else meanwhile."""
 import glob
 import json
 import os
@@ -14,33 +17,47 @@ def sh(cmd):
     return subprocess.run(cmd, shell=True, capture_output=True, text=True)
 
 
-ids = sys.argv[1:] or [os.path.basename(d) for d in sorted(glob.glob(os.path.join(V, 'seeded', 'C*-*')))]
-assert sh('git -C /repo diff --quiet').returncode == 0, '/repo has uncommitted changes'
-for sid in ids:
-    d = os.path.join(V, 'seeded', sid)
-    pid = sid.split('-')[0]
-    meta = json.load(open(os.path.join(d, 'meta.json')))
-    r = sh('git -C /repo apply %s/patch.diff' % d)
-    if r.returncode != 0:
-        r = sh('cd /repo && patch -p1 -F3 --no-backup-if-mismatch < %s/patch.diff' % d)
+IN_REPO = '--in-repo' in sys.argv
+args = [a for a in sys.argv[1:] if a != '--in-repo']
+REPO = '/repo' if IN_REPO else '/tmp/wn-seedsweep'
+if not IN_REPO:
+    sh('git -C /repo worktree remove --force %s' % REPO)
+    sh('rm -rf %s' % REPO)
+    r0 = sh('git -C /repo worktree add --detach %s HEAD' % REPO)
+    assert r0.returncode == 0, r0.stderr
+ids = args or [os.path.basename(d) for d in sorted(glob.glob(os.path.join(V, 'seeded', 'C*-*')))]
+assert sh('git -C %s diff --quiet' % REPO).returncode == 0, REPO + ' has uncommitted changes'
+try:
+    for sid in ids:
+        d = os.path.join(V, 'seeded', sid)
+        pid = sid.split('-')[0]
+        meta = json.load(open(os.path.join(d, 'meta.json')))
+        r = sh('git -C %s apply %s/patch.diff' % (REPO, d))
         if r.returncode != 0:
-            sh('git -C /repo checkout -- .')
-            print(sid, 'PATCH DOES NOT APPLY')
-            continue
-        open(os.path.join(d, 'patch.diff'), 'w').write(sh('git -C /repo diff -- wn').stdout)
-    try:
-        c = sh('cd %s && timeout 1500 ./check %s --tier quick' % (V, pid))
-    finally:
-        sh('git -C /repo checkout -- .')
-    tail = c.stdout.strip().splitlines()[-3:]
-    conf = meta.setdefault('confirmation', {})
-    old = (conf.get('check_rc'), (conf.get('check_tail') or [''])[-1])
-    if old[0] is not None and old[0] != c.returncode:
-        meta.setdefault('history', []).append({'check_rc': old[0], 'last_line': old[1]})
-        if old[0] == 0 and c.returncode == 1 and not meta.get('first_run'):
-            meta['first_run'] = 'not caught by the check as it was when the change was seeded; the check was strengthened'
-    conf['check_rc'] = c.returncode
-    conf['check_tail'] = tail
-    json.dump(meta, open(os.path.join(d, 'meta.json'), 'w'), indent=1)
-    print(sid, 'rc=%d' % c.returncode, tail[-1] if tail else '')
-assert sh('git -C /repo diff --quiet').returncode == 0
+            r = sh('cd %s && patch -p1 -F3 --no-backup-if-mismatch < %s/patch.diff' % (REPO, d))
+            if r.returncode != 0:
+                sh('git -C %s checkout -- .' % REPO)
+                print(sid, 'PATCH DOES NOT APPLY')
+                continue
+            open(os.path.join(d, 'patch.diff'), 'w').write(sh('git -C %s diff -- wn' % REPO).stdout)
+        try:
+            c = sh('cd %s && VERIF_REPO=%s timeout 1500 ./check %s --tier quick' % (V, REPO, pid))
+        finally:
+            sh('git -C %s checkout -- .' % REPO)
+        tail = c.stdout.strip().splitlines()[-3:]
+        conf = meta.setdefault('confirmation', {})
+        old = (conf.get('check_rc'), (conf.get('check_tail') or [''])[-1])
+        if old[0] is not None and old[0] != c.returncode:
+            meta.setdefault('history', []).append({'check_rc': old[0], 'last_line': old[1]})
+            if old[0] == 0 and c.returncode == 1 and not meta.get('first_run'):
+                meta['first_run'] = 'not caught by the check as it was when the change was seeded; the check was strengthened'
+        conf['check_rc'] = c.returncode
+        conf['check_tail'] = tail
+        json.dump(meta, open(os.path.join(d, 'meta.json'), 'w'), indent=1)
+        print(sid, 'rc=%d' % c.returncode, tail[-1] if tail else '', flush=True)
+    assert sh('git -C %s diff --quiet' % REPO).returncode == 0
+finally:
+    if not IN_REPO:
+        sh('git -C /repo worktree remove --force %s' % REPO)
+        sh('rm -rf %s' % REPO)
+        sh('git -C /repo worktree prune')
